@@ -2,6 +2,7 @@
 import random
 
 import numpy as np
+import pandas as pd
 
 from fv import common, design, design_trace, gen, rows
 
@@ -23,6 +24,20 @@ def _events(args):
         v = rng.choice(["f", "g", "h", "o"])
         code = rng.randint(1, len(w.names[v]))
         lvl = w.names[v][code - 1]
+        absent = rng.random()
+        if absent < 0.12:
+            # a level that never occurs: the column is all zero
+            code, lvl = len(w.names[v]) + 1, "zzz"
+            if rng.random() < 0.5 and isinstance(w.df[v].dtype, pd.CategoricalDtype) and not w.df[v].dtype.ordered:
+                w.df[v] = w.df[v].cat.add_categories(["zzz"])   # ... or is a declared but unobserved category
+        elif absent < 0.3 and sum(1 for c in w.cols[v]["v"] if c != code) >= 1:
+            # the level occurs only on rows that are dropped because another used variable is missing there
+            for r in range(w.n):
+                if w.cols[v]["v"][r] == code:
+                    gen._set_na(w, w.df, "u1", r)  # pylint: disable=protected-access
+            rhs_text += " + u1"
+            used = sorted(set(used) | {"u1"})
+            base["frame"] = {"n": w.n, "cols": w.cols}
         forms = [f"{v}['{lvl}']", f'{v}["{lvl}"]']
         if lvl.isidentifier():
             forms.append(f"{v}[{lvl}]")
